@@ -251,11 +251,31 @@ def _indexing(ck, it, fn, ut, D, parity, indexing, fshape):
         consumers.append(("make_incompressible", lambda: it.call(fn("make_incompressible"), [state_phys(D, D)], {"indexing": indexing})))
     FI = it.module("exponax._interpolation").env.get("FourierInterpolator")
     consumers.append(("FourierInterpolator", lambda: it.call(FI, [state_phys(D, 1)], {"domain_extent": L, "indexing": indexing})))
+    sigma = {j: (ax[0] if len(ax) == 1 else j) for j, ax in enumerate(gaxes)}
+
+    def canon(e, ren):
+        def f(a):
+            if a[0] == "k":
+                return Poly.atom(("k", ren[a[1]] if ren else a[1], a[2], "full"))
+            return None
+
+        return SO.specialize(alg.map_atoms(as_poly(e), f), "generic")
+
     for name, thunk in consumers:
         key = f"{name}#{tag}"
         try:
-            thunk()
+            r = thunk()
             ck.ok(rule, key)
+            # the option must reach the wavenumbers the consumer multiplies with: component j of the result belongs
+            # to coordinate j, which make_grid(indexing) lays out along array axis sigma(j)
+            if indexing != "ij" and name in ("derivative", "make_incompressible", "get_fourier_coefficients") and not isinstance(r, Obj):
+                it_ij = {"derivative": lambda: it.call(fn("derivative"), [state_phys(D, 1), L], {"indexing": "ij"}),
+                         "get_fourier_coefficients": lambda: it.call(fn("get_fourier_coefficients"), [state_phys(D, 1)], {"indexing": "ij", "round": None}),
+                         "make_incompressible": lambda: it.call(fn("make_incompressible"), [state_phys(D, D)], {"indexing": "ij"})}[name]()
+                ren = None if name == "get_fourier_coefficients" else sigma
+                got = [canon(e, None) for e in r.data]
+                want = [canon(e, ren) for e in it_ij.data]
+                ck.compare(rule, key + "#value", loc(fn(name)), got, want, config={"D": D, "parity": parity, "indexing": indexing, "sigma": str(sigma)})
         except ShapeError as e:
             where = getattr(e, "_loc", None)
             ck.fail(rule, key, f"{where[0]}:{where[1]}" if where else "?", f"{name}(indexing='{indexing}') multiplies arrays of incompatible shapes: {e}")
